@@ -2,12 +2,16 @@ package main
 
 import (
 	"fmt"
+	"strings"
+
+	"gorgonia.org/tensor"
 )
 
 func init() { gens["C09"] = genC09 }
 
 func genC09(tier string, r *rng, emit func(string)) {
 	thorough := tier == "thorough"
+	genCLin(emit)
 	n := 7000
 	if thorough {
 		n = 100000
@@ -78,5 +82,88 @@ func genC09(tier string, r *rng, emit func(string)) {
 		}
 		p.ops = append(p.ops, fmt.Sprintf("lin:%s:%d:%d:%s", kind, a, b, mode))
 		emit(fmt.Sprintf("prog %s %s", dt, p.prog()))
+	}
+}
+
+// clin <dt> <prog> : complex products on Gaussian-integer values (token k = k - k*i), so that a
+// conjugated product differs from the plain one.  The last operation (lin:<op>:<a>:<b>:safe or
+// inner:<a>:<b>) is observed exactly: val:<re>_<im> or ok:[shape|re_im,...]
+func cfmt(v interface{}) string {
+	switch x := v.(type) {
+	case complex64:
+		return fmt.Sprintf("%d_%d", int(real(x)), int(imag(x)))
+	case complex128:
+		return fmt.Sprintf("%d_%d", int(real(x)), int(imag(x)))
+	}
+	return "?"
+}
+
+func init() {
+	execs["clin"] = func(a []string) string {
+		w := &world{dt: a[0]}
+		ops := strings.Split(a[1], ";")
+		for _, op := range ops[:len(ops)-1] {
+			if st := w.step(op); st == "panic" {
+				return "progpanic"
+			}
+		}
+		f := strings.Split(ops[len(ops)-1], ":")
+		if f[0] == "inner" {
+			v, err := w.ts[atoi(f[1])].Inner(w.ts[atoi(f[2])])
+			if err != nil {
+				return "err"
+			}
+			return "val:" + cfmt(v)
+		}
+		x, y := w.ts[atoi(f[2])], w.ts[atoi(f[3])]
+		var r *tensor.Dense
+		var err error
+		switch f[1] {
+		case "matmul":
+			r, err = x.MatMul(y)
+		case "matvec":
+			r, err = x.MatVecMul(y)
+		default:
+			r, err = x.Outer(y)
+		}
+		if err != nil {
+			return "err"
+		}
+		var cells []string
+		for _, c := range boxCoords([]int(r.Shape())) {
+			v, e := r.At(c...)
+			if e != nil {
+				cells = append(cells, "E")
+			} else {
+				cells = append(cells, cfmt(v))
+			}
+		}
+		return fmt.Sprintf("ok:[%s|%s]", fints(r.Shape()), strings.Join(cells, ","))
+	}
+}
+
+func genCLin(emit func(string)) {
+	for _, dt := range []string{"c64", "c128"} {
+		// plain and lazily transposed operands (the layouts of the C09 theorems)
+		emit(fmt.Sprintf("clin %s new:rm:3:1;new:rm:3:2;inner:0:1", dt))
+		emit(fmt.Sprintf("clin %s new:rm:3,1:1;new:rm:1,3:2;inner:0:1", dt))
+		for _, ta := range []string{"", ";T:0:1,0"} {
+			for _, tb := range []string{"", ";T:1:1,0"} {
+				sa, sb := "2,3", "3,2"
+				if ta != "" {
+					sa = "3,2"
+				}
+				if tb != "" {
+					sb = "2,3"
+				}
+				emit(fmt.Sprintf("clin %s new:rm:%s:1;new:rm:%s:2%s%s;lin:matmul:0:1:safe", dt, sa, sb, ta, tb))
+			}
+			sa := "2,3"
+			if ta != "" {
+				sa = "3,2"
+			}
+			emit(fmt.Sprintf("clin %s new:rm:%s:1;new:rm:3:2%s;lin:matvec:0:1:safe", dt, sa, ta))
+		}
+		emit(fmt.Sprintf("clin %s new:rm:3:1;new:rm:2:4;lin:outer:0:1:safe", dt))
 	}
 }
